@@ -109,7 +109,7 @@ PROPS = {
     "C18": {
         "rules": [kind_scope("trainer", "mecab"), r_fmt.bigram_files, r_codec.run_c18,
                   r_misc.template_cover, r_misc.regex_trainer, r_misc.csvsplit, r_fmt.csvrow, r_misc.bigram_details_shape,
-                  r_writedict.chartype, r_rewrite.run],
+                  r_writedict.chartype, r_rewrite.run, r_writedict.run],
         "explanation": "KIND over the trainer: unigram/left/right templates, id tables and "
                        "next-id counters are never mixed (same-family rule on "
                        "extract_feature_ids), extract_left/right results reach the matching "
@@ -512,7 +512,7 @@ _ADDED2 = {
     "C13": "KIND over map's main as for C06 (the files reorder writes are consumed on their own side).",
     "C14": "QUOTER also requires the input to advance by the consumed count nin and each write to be cut at the produced count nout. KIND over dictgen's main: writers created with the .left / .right suffixes reach write_bigram_details' parameters of their own side.",
     "C17": "CSVROW: parse_csv_row appends every decoded chunk (OutputFull included), emits the accumulated cell on every Field/InputEmpty/End outcome - the empty last cell too - and advances the input by the consumed count.",
-    "C18": "CSVROW as for C17 (template column numbers). FIRSTMATCH-* (the C17 rules): templates expand the *rewritten* features, so a rewriter that applies a later rule changes every expansion.",
+    "C18": "LABELBASE (the C14 rule): the ids written for lexicon, unknown and user rows are those of the feature set the trainer's label names - user rows through the stored label. CSVROW as for C17 (template column numbers). FIRSTMATCH-* (the C17 rules): templates expand the *rewritten* features, so a rewriter that applies a later rule changes every expansion.",
     "C19": "CSVDEFAULT: the lexicon parser keeps csv-core's default dialect (a changed terminator leaves a CR at the end of every feature, which the corpus reader then strips - tokens no longer round-trip). ERRPROP also covers discarding function items handed to adaptors (`map_while(Result::ok)`) and flattened io::Result iterators.",
     "C20": "CSVROW as for C17 (the id lines of left-id.def / right-id.def).",
     "C16": "QUOTER (cells of bigram.left/right): every byte written comes from the csv-core writer's buffer cut at the produced count, the input advances by the consumed count, finish precedes Ok. CSVROW as for C17 (bigram.left/right lines). KIND over dictgen's and compile's main: the .left/.right files are written from, and --bigram-left-in/--bigram-right-in read into, the parameters of their own side.",
